@@ -146,7 +146,7 @@ static std::string geoOp(Toks &t) {
   std::string op = t.next();
   Out o;
   try {
-    if (op == "new") {
+    if (op == "new" || op == "newopt") {   // newopt: the factory may legitimately refuse the parameters
       std::string fac = t.next();
       g.has = false;
       g.f = SmoothSegmentedFunction();
@@ -158,16 +158,12 @@ static std::string geoOp(Toks &t) {
     else if (op == "dom") { VectorNd d = g.f.getCurveDomain(); o.num(d[0]); o.num(d[1]); }
     else if (op == "getcp") {
       size_t ns = g.f._mXVec.size();
-      if (ns > 6) o.str("skipped-out-of-bounds");
-      else {
-        // the matrices already have the size the getters resize to, so entries the getters do
-        // not write keep the marker value
-        MatrixNd mx = MatrixNd::Constant(ns, 6, -777.), my = MatrixNd::Constant(ns, 6, -777.);
-        g.f.getXControlPoints(mx);
-        g.f.getYControlPoints(my);
-        o.str(std::to_string(mx.rows())); o.str(std::to_string(mx.cols())); o.mat(mx);
-        o.str(std::to_string(my.rows())); o.str(std::to_string(my.cols())); o.mat(my);
-      }
+      // entries the getters do not write keep the marker value
+      MatrixNd mx = MatrixNd::Constant(ns, 6, -777.), my = MatrixNd::Constant(ns, 6, -777.);
+      g.f.getXControlPoints(mx);
+      g.f.getYControlPoints(my);
+      o.str(std::to_string(mx.rows())); o.str(std::to_string(mx.cols())); o.mat(mx);
+      o.str(std::to_string(my.rows())); o.str(std::to_string(my.cols())); o.mat(my);
     }
     else if (op == "eval") {
       int order = (int) t.nat(); double x = geoCoord(g.f, t);
